@@ -294,6 +294,25 @@ def hill_climb(ctx, rounds):
         ctx.hist["hill-climb-best:" + name] = best
 
 
+def loose_verdicts(ctx):
+    """interestingness tests that do not answer with a real bool — 1/0, a non-empty/empty string, or falling off the end
+    (None) for "not interesting": through the real driver every strategy still finishes without an internal error"""
+    from .. import scripts
+    data = {"line": b"a\n{\nb\n}\nc\nd\n", "char": b"ab{}c"}
+    for name in REMOVAL + ["replace-properties-by-globals", "replace-arguments-by-globals", "check-only"]:
+        for kind, d in data.items():
+            for answers in ((1, 0), ("yes", ""), (True, None), ([0], [])):
+                seq = [False, True, False, False, True] * 40
+                o, f, run = scripts.play_real(name, {}, kind, d, lambda k, disk, seq=seq: "a" if k == 0 or seq[k % len(seq)] else "r",
+                                              answers=answers, max_tests=300)
+                ctx.evaluations += 1
+                ctx.bump("loose-verdicts")
+                case = dict(strategy=name, splitter=kind, data=common.enc_bytes(d), answers=repr(answers), on_disk=True)
+                if o.exit == "x":
+                    ctx.fail("internal-error", f"{name} with a test answering {answers!r} for accept/reject: run() raised "
+                             f"{type(o.exc).__name__}: {o.exc}", case)
+
+
 def known_finding_cases(ctx):
     res = loaders.real_load("line", b"function f(a){}\nf(function f(x){})\n")
     one(ctx, "replace-arguments-by-globals", dict(), "line", strat.fields(res[1]), lambda k, c: True, False, "known-finding")
@@ -331,6 +350,7 @@ def search(ctx):
 def run(ctx) -> int:
     proof = common.proof_stage(ctx.pid)
     known_finding_cases(ctx)
+    loose_verdicts(ctx)
     grid(ctx, ctx.thorough)
     collapse_runs(ctx)
     marker_forming(ctx)
